@@ -77,9 +77,9 @@ func (h *Handler) handleDiscover(p packet.DHCP4, options packet.DHCP4Options) (d
 		}
 	}
 
-	// a previous offer is only repeated while its address is still free: it may have been acknowledged to another
-	// client or appeared on the LAN since it was offered
-	if lease.State != StateAllocated && lease.IPOffer.IsValid() && !h.ipAvailable(lease, lease.IPOffer) {
+	// a previous offer or lease is only offered again while its address is still free: it may have been acknowledged
+	// to another client or appeared on the LAN with another host since then
+	if lease.IPOffer.IsValid() && !h.ipAvailable(lease, lease.IPOffer) {
 		lease.IPOffer = netip.Addr{}
 	}
 
